@@ -2,7 +2,8 @@
    transformation_quad returns is the canonical one read in the frame
    (r0, r1, r2) centred at t (the congruence lemma), hence MCNP's facet. *)
 From Coq Require Import List ZArith Bool Reals Lra Lia.
-From T4V Require Import Base.Scalar C03.Vec C03.Model C03.Spec C03.VecFacts C03.ProofsPlanes.
+From T4V Require Import Base.Scalar C03.Vec C03.Model C03.Convert C03.Spec C03.SpecT4
+  C03.VecFacts C03.WfFacts C03.ProofsPlanes.
 Import ListNotations.
 Open Scope R_scope.
 
@@ -67,24 +68,34 @@ Proof.
   rewrite U1, U2. unfold m1. rs. simpl IZR. field. lra.
 Qed.
 
-Theorem rec12_facets_ok (v h a1 a2 : pt) :
+Lemma rec12_facets_ok_full (v h a1 a2 : pt) :
   h <> (0, 0, 0) -> a1 <> (0, 0, 0) -> a2 <> (0, 0, 0) ->
-  exists es, rec RS (pl v ++ pl h ++ pl a1 ++ pl a2) = Ok es /\
+  exists es, rec RS (pl v ++ pl h ++ pl a1 ++ pl a2) = Ok es /\ Forall entry_wf es /\
              Forall2 same_facet es (rec_facets v h a1 a2).
 Proof.
   intros Hh H1 H2. open_body @rec. rewrite (pl_nil a2), v3_at0, v3_at3, v3_at6, v3_at9.
   tospec. pose proof (norm2_pos a1 H1) as N1. pose proof (norm2_pos a2 H2) as N2.
   rewrite !divr_ok by (unfold norm2 in *; lra). cbn [bind].
   rewrite !renorm_ok by assumption. cbn [bind].
-  eexists; split; [reflexivity|]. unfold rec_facets.
+  eexists; split; [reflexivity|].
+  split; [constructor; [apply wf_gq | now apply wf_end_planes]|]. unfold rec_facets.
   constructor; [|apply end_planes_ok].
   apply rec_quadric_ok; auto.
 Qed.
 
+Theorem rec12_facets_ok (v h a1 a2 : pt) :
+  h <> (0, 0, 0) -> a1 <> (0, 0, 0) -> a2 <> (0, 0, 0) ->
+  exists es, rec RS (pl v ++ pl h ++ pl a1 ++ pl a2) = Ok es /\
+             Forall2 same_facet es (rec_facets v h a1 a2).
+Proof.
+  intros. edestruct (rec12_facets_ok_full v h a1 a2) as (es & E & _ & F); try eassumption.
+  exists es; split; assumption.
+Qed.
+
 (* ten entries: the minor semi-axis has length |b| along h x a1 *)
-Theorem rec10_facets_ok (v h a1 : pt) (b : R) :
+Lemma rec10_facets_ok_full (v h a1 : pt) (b : R) :
   cross h a1 <> (0, 0, 0) -> b <> 0 ->
-  exists es, rec RS (pl v ++ pl h ++ pl a1 ++ [b]) = Ok es /\
+  exists es, rec RS (pl v ++ pl h ++ pl a1 ++ [b]) = Ok es /\ Forall entry_wf es /\
              Forall2 same_facet es (rec_facets v h a1 (rec10_minor h a1 b)).
 Proof.
   intros Hc Hb.
@@ -106,9 +117,19 @@ Proof.
   rewrite !divr_ok by (unfold norm2 in *; nra). cbn [bind].
   fold (rec10_minor h a1 b).
   rewrite !renorm_ok by assumption. cbn [bind].
-  eexists; split; [reflexivity|]. unfold rec_facets.
+  eexists; split; [reflexivity|].
+  split; [constructor; [apply wf_gq | now apply wf_end_planes]|]. unfold rec_facets.
   constructor; [|apply end_planes_ok].
   apply rec_quadric_ok; auto. now rewrite N2.
+Qed.
+
+Theorem rec10_facets_ok (v h a1 : pt) (b : R) :
+  cross h a1 <> (0, 0, 0) -> b <> 0 ->
+  exists es, rec RS (pl v ++ pl h ++ pl a1 ++ [b]) = Ok es /\
+             Forall2 same_facet es (rec_facets v h a1 (rec10_minor h a1 b)).
+Proof.
+  intros. edestruct (rec10_facets_ok_full v h a1 b) as (es & E & _ & F); try eassumption.
+  exists es; split; assumption.
 Qed.
 
 (* ---------------- TRC ---------------- *)
@@ -118,9 +139,9 @@ Lemma eval_cone (apex u : pt) (t : R) (p : pt) :
   - t * t * sqr (dot (vsub p apex) u).
 Proof. destruct apex as [[x y] z], u as [[a b] c]. reflexivity. Qed.
 
-Theorem trc_facets_ok (v h : pt) (r0 r1 : R) :
+Lemma trc_facets_ok_full (v h : pt) (r0 r1 : R) :
   h <> (0, 0, 0) -> r0 <> r1 ->
-  exists es, trc RS (pl v ++ pl h ++ [r0; r1]) = Ok es /\
+  exists es, trc RS (pl v ++ pl h ++ [r0; r1]) = Ok es /\ Forall entry_wf es /\
              Forall2 same_facet es (trc_facets v h r0 r1).
 Proof.
   intros Hh Hr. pose proof (norm_pos h Hh) as Hn. pose proof (norm2_pos h Hh) as HN.
@@ -129,7 +150,8 @@ Proof.
   change 7%nat with (3 + (3 + 1))%nat. change 6%nat with (3 + (3 + 0))%nat.
   rewrite !nth_skip. cbn [nth]. tospec.
   rewrite (divr_ok r0 (r0 - r1)) by (intros X; apply Hr; lra). cbn [bind]. rewrite divr_ok by lra. cbn [bind]. rewrite renorm_ok by assumption. cbn [bind]. tospec.
-  eexists; split; [reflexivity|]. unfold trc_facets.
+  eexists; split; [reflexivity|].
+  split; [constructor; [apply wf_cone; apply vmul_nz; [pose proof (Rinv_0_lt_compat _ Hn); unfold Rdiv; lra | assumption] | now apply wf_end_planes]|]. unfold trc_facets.
   constructor; [|apply end_planes_ok].
   exists 1. split; [lra|]. intros p. cbn [entry_value]. rewrite eval_cone.
   unfold trc_cone, perp2.
@@ -154,6 +176,15 @@ Proof.
       with (Rabs (r1 - r0) * Rabs (r1 - r0) / (norm h * norm h)) by (field; lra).
     now rewrite <- A. }
   rewrite E1, E2, E3, E4. unfold sqr, d. simpl IZR. field. split; lra.
+Qed.
+
+Theorem trc_facets_ok (v h : pt) (r0 r1 : R) :
+  h <> (0, 0, 0) -> r0 <> r1 ->
+  exists es, trc RS (pl v ++ pl h ++ [r0; r1]) = Ok es /\
+             Forall2 same_facet es (trc_facets v h r0 r1).
+Proof.
+  intros. edestruct (trc_facets_ok_full v h r0 r1) as (es & E & _ & F); try eassumption.
+  exists es; split; assumption.
 Qed.
 
 (* ---------------- ELL ---------------- *)
@@ -202,7 +233,8 @@ Qed.
 
 Lemma ell_quadric_ok (c a : pt) (b2 : R) :
   a <> (0, 0, 0) -> b2 <> 0 ->
-  exists es, ell_quadric RS c a b2 = Ok es /\ Forall2 same_facet es [spheroid c a b2].
+  exists es, ell_quadric RS c a b2 = Ok es /\ Forall entry_wf es /\
+             Forall2 same_facet es [spheroid c a b2].
 Proof.
   intros Ha Hb. pose proof (norm2_pos a Ha) as HN. pose proof (norm_pos a Ha) as Hn.
   pose proof (norm_sqr a) as Hs.
@@ -217,9 +249,10 @@ Proof.
               (do ia <- divr RS (s1 RS) (mag2 RS a); do ib <- divr RS (s1 RS) b2;
                Ok [(TGQ, transformation_quad RS ([ia; ib; ib] ++ zeros RS 6 ++ [m1 RS]) c
                            (u0, u1, u2) ub (vect RS (u0, u1, u2) ub), 1%Z)]) = Ok es /\
-              Forall2 same_facet es [spheroid c a b2]).
+              Forall entry_wf es /\ Forall2 same_facet es [spheroid c a b2]).
   { intros ub Nb Hab. tospec. rewrite !divr_ok by lra. cbn [bind].
-    eexists; split; [reflexivity|]. constructor; [|constructor].
+    eexists; split; [reflexivity|]. split; [constructor; [apply wf_gq|constructor]|].
+    constructor; [|constructor].
     exists 1. split; [lra|]. intros p. cbn [entry_value eval_surf].
     rewrite (SF ub b2 p Ha Hb Nb Hab). simpl IZR. ring. }
   assert (C3 : c1em3 RS = 1 / 1000) by reflexivity.
@@ -259,9 +292,9 @@ Qed.
 
 (* second parameterisation: centre, major semi-axis vector, minus the minor
    radius (last entry not positive) *)
-Theorem ell_axis_facets_ok (c a : pt) (mb : R) :
+Lemma ell_axis_facets_ok_full (c a : pt) (mb : R) :
   a <> (0, 0, 0) -> mb < 0 ->
-  exists es, ell RS (pl c ++ pl a ++ [mb]) = Ok es /\
+  exists es, ell RS (pl c ++ pl a ++ [mb]) = Ok es /\ Forall entry_wf es /\
              Forall2 same_facet es (ell_axis_facets c a mb).
 Proof.
   intros Ha Hb. open_body @ell. rewrite v3_at0, v3_at3.
@@ -270,13 +303,22 @@ Proof.
   apply ell_quadric_ok; [assumption|nra].
 Qed.
 
+Theorem ell_axis_facets_ok (c a : pt) (mb : R) :
+  a <> (0, 0, 0) -> mb < 0 ->
+  exists es, ell RS (pl c ++ pl a ++ [mb]) = Ok es /\
+             Forall2 same_facet es (ell_axis_facets c a mb).
+Proof.
+  intros. edestruct (ell_axis_facets_ok_full c a mb) as (es & E & _ & F); try eassumption.
+  exists es; split; assumption.
+Qed.
+
 (* first parameterisation (last entry L > 0), as MCNP behaves according to the
    source comment of MacroBodies.ell *)
-Theorem ell_foci_facets_ok (f1 f2 : pt) (L : R) :
+Lemma ell_foci_facets_ok_full (f1 f2 : pt) (L : R) :
   0 < L ->
   let f := vsub f1 (vmul (1 / 2) (vadd f1 f2)) in
   f <> (0, 0, 0) -> norm f <> 2 * L ->
-  exists es, ell RS (pl f1 ++ pl f2 ++ [L]) = Ok es /\
+  exists es, ell RS (pl f1 ++ pl f2 ++ [L]) = Ok es /\ Forall entry_wf es /\
              Forall2 same_facet es (ell_foci_facets f1 f2 L).
 Proof.
   intros HL f Hf Hn. pose proof (norm_pos f Hf) as Hp.
@@ -291,6 +333,17 @@ Proof.
     unfold Rdiv. apply Rmult_integral_contrapositive_currified; [lra|].
     apply Rinv_neq_0_compat. lra.
   - intros E. apply Hn. nra.
+Qed.
+
+Theorem ell_foci_facets_ok (f1 f2 : pt) (L : R) :
+  0 < L ->
+  let f := vsub f1 (vmul (1 / 2) (vadd f1 f2)) in
+  f <> (0, 0, 0) -> norm f <> 2 * L ->
+  exists es, ell RS (pl f1 ++ pl f2 ++ [L]) = Ok es /\
+             Forall2 same_facet es (ell_foci_facets f1 f2 L).
+Proof.
+  intros HL f Hf Hn. destruct (ell_foci_facets_ok_full f1 f2 L HL Hf Hn) as (es & E & _ & F).
+  exists es; split; assumption.
 Qed.
 
 (* ---------------- TRC and REC as solids ---------------- *)
